@@ -884,4 +884,121 @@ theorem into_records_source (full : Name) (ips : List (Bool × Nat)) (ports : Li
   unfold Mdns.intoRecords intoRecordsWith
   cases Txt.ofMap attrs <;> simp [bind, pure, Out.bind, classNamed, addrCode]
 
+/-! ### 21. the loop of `Name::parse` (`name.rs`) -/
+
+/-- one turn of the model's `nameLoop`: the result, or the state the next turn starts from -/
+def nameStep (d : Bytes) (s : NS) : Sum (Out (Name × Nat)) NS :=
+  if s.pos ≥ d.length ∨ s.pp ≥ d.length then .inl .err else
+  if s.size ≥ 255 then .inl .err else
+  match d[s.pp]? with
+  | none => .inl .panic
+  | some b =>
+    if b = 0 then .inl (.ok (s.labels.reverse, s.pos + 1))
+    else if b.toNat &&& 0xC0 = 0xC0 then
+      if s.pp + 2 > d.length then .inl .err else
+      match d[s.pp+1]? with
+      | none => .inl .panic
+      | some b2 =>
+        if (b.toNat &&& 0x3F) * 256 + b2.toNat ≥ s.pp then .inl .err else
+        .inr { s with pos := if s.follow then s.pos else s.pos + 1, pp := (b.toNat &&& 0x3F) * 256 + b2.toNat, follow := true }
+    else
+      if s.pp + 1 + b.toNat > d.length then .inl .err else
+      if b.toNat > 63 then .inl .err else
+      .inr { pos := if s.follow then s.pos else s.pos + b.toNat + 1,
+             pp := s.pp + b.toNat + 1, follow := s.follow,
+             size := s.size + 1 + b.toNat, labels := (d.drop (s.pp+1)).take b.toNat :: s.labels }
+
+theorem nameLoop_step (d : Bytes) (s : NS) :
+    nameLoop d s = (match nameStep d s with
+       | .inl o => o
+       | .inr s' => nameLoop d s') := by
+  rw [nameLoop]
+  unfold nameStep
+  by_cases h0 : s.pos ≥ d.length ∨ s.pp ≥ d.length
+  · simp only [h0, if_true]
+  · simp only [h0, if_false]
+    by_cases h1 : s.size ≥ 255
+    · simp only [h1, if_true]
+    · simp only [h1, if_false]
+      cases hb : d[s.pp]? with
+      | none => simp only []
+      | some b =>
+        simp only []
+        by_cases hz : b = 0
+        · simp only [hz, if_true]
+        · simp only [hz, if_false]
+          by_cases hp : b.toNat &&& 0xC0 = 0xC0
+          · simp only [hp, if_true]
+            by_cases h2 : s.pp + 2 > d.length
+            · simp only [h2, if_true]
+            · simp only [h2, if_false]
+              cases hb2 : d[s.pp+1]? with
+              | none => simp only []
+              | some b2 =>
+                simp only []
+                by_cases h3 : (b.toNat &&& 0x3F) * 256 + b2.toNat ≥ s.pp
+                · simp only [h3, if_true, dite_true]
+                · simp only [h3, if_false, dite_false]
+          · simp only [hp, if_false]
+            by_cases h4 : s.pp + 1 + b.toNat > d.length
+            · simp only [h4, if_true]
+            · simp only [h4, if_false]
+              by_cases h5 : b.toNat > 63
+              · simp only [h5, if_true]
+              · simp only [h5, if_false]
+
+/-- one turn of the loop of `Name::parse` with its numbers and comparisons as parameters: the result,
+or the state the next turn starts from -/
+def nameStepWith (nums : List Nat) (ops : List String) (d : Bytes) (s : NS) : Sum (Out (Name × Nat)) NS :=
+  if s.pos ≥ d.length ∨ s.pp ≥ d.length then .inl .err else
+  if cmpOf (ops.getD 0 "") s.size 255 then .inl .err else
+  match d[s.pp]? with
+  | none => .inl .panic
+  | some b =>
+    if b = 0 then .inl (.ok (s.labels.reverse, s.pos + 1))
+    else if b.toNat &&& 0xC0 = 0xC0 then
+      let pos := if s.follow then s.pos else s.pos + nums.getD 6 0
+      if cmpOf (ops.getD 1 "") (s.pp + nums.getD 1 0) d.length then .inl .err else
+      match d[s.pp+1]? with
+      | none => .inl .panic
+      | some b2 =>
+        let ptr := (b.toNat &&& 0x3F) * 256 + b2.toNat
+        if cmpOf (ops.getD 2 "") ptr s.pp then .inl .err else
+        .inr { s with pos := pos, pp := ptr, follow := true }
+    else
+      let len := b.toNat
+      if cmpOf (ops.getD 3 "") (s.pp + nums.getD 3 0 + len) d.length then .inl .err else
+      if cmpOf (ops.getD 4 "") len 63 then .inl .err else
+      let lab := (d.drop (s.pp+1)).take len
+      .inr { pos := if s.follow then s.pos else s.pos + len + nums.getD 4 0,
+             pp := s.pp + len + nums.getD 5 0, follow := s.follow,
+             size := s.size + nums.getD 2 0 + len, labels := lab :: s.labels }
+
+def modelNameParseNums : List Nat := [0, 2, 1, 1, 1, 1, 1]
+def modelNameParseOps : List String := [">=", ">", ">=", ">", ">"]
+
+
+theorem cmpOf_ge (a b : Nat) : cmpOf ">=" a b = decide (a ≥ b) := by simp [cmpOf]
+theorem cmpOf_gt (a b : Nat) : cmpOf ">" a b = decide (a > b) := by simp [cmpOf]
+
+theorem nameStepWith_model (d : Bytes) (s : NS) :
+    nameStepWith modelNameParseNums modelNameParseOps d s = nameStep d s := by
+  simp only [nameStepWith, nameStep, modelNameParseNums, modelNameParseOps, List.getD_cons_zero, List.getD_cons_succ,
+    cmpOf_ge, cmpOf_gt, decide_eq_true_eq]
+
+/-- **the loop of `Name::parse` is the model's `nameLoop`**, turn by turn: the model's loop does what
+one turn with the numbers and comparisons read from the source does and goes on from the state that
+turn leaves, and `Name::parse` enters it with the initial `name_size` of the source (a size counter
+that starts at 1, `>` for `>=` in the size guard, `+ 1` for `+ 2` in the pointer bound, `>` for `>=`
+in the backward-pointer test: each regenerates another value and this fails) -/
+theorem name_parse_source (d : Bytes) (s : NS) (pos : Nat) :
+    nameLoop d s =
+      (match nameStepWith (Gen.Env.nameParseNums.getD modelNameParseNums) (Gen.Env.nameParseOps.getD modelNameParseOps) d s with
+       | .inl o => o
+       | .inr s' => nameLoop d s') ∧
+    Name.parse d pos = nameLoop d (NS.mk pos pos false ((Gen.Env.nameParseNums.getD modelNameParseNums).getD 0 0) []) := by
+  have h1 : Gen.Env.nameParseNums.getD modelNameParseNums = modelNameParseNums := by decide
+  have h2 : Gen.Env.nameParseOps.getD modelNameParseOps = modelNameParseOps := by decide
+  rw [h1, h2, nameStepWith_model]
+  exact ⟨nameLoop_step d s, rfl⟩
 end Dns.TieEnv
